@@ -68,6 +68,12 @@ var (
 //go:noinline
 func ztouch() { zSink++ }
 
+var zfnO = func() {}
+var zfnS = func() { zSink += 0 }
+
+// zrcv is the receiver bound into the method-value targets; zfnVar holds a function for Func(&zfnVar).
+var zrcv = &ZRcv{N: 1}
+
 type ztype struct {
 	t    reflect.Type
 	orig interface{} // what the unmocked targets return in a slot of this type
@@ -103,6 +109,7 @@ var ztypes = map[string]ztype{
 	"ch":   {reflect.TypeOf((chan int)(nil)), zChO, zChS},
 	"ictx": {reflect.TypeOf((*IContext)(nil)), &IContext{}, &IContext{}},
 	"dup":  {reflect.TypeOf(ZDup{}), ZDup{1001, 1}, ZDup{7, 7}},
+	"fn":   {reflect.TypeOf(func() {}), zfnO, zfnS},
 	"dupl": zlocalDup(),
 	"dupp": {reflect.TypeOf(altmocker.ZDup{}), altmocker.ZDup{A: 1}, altmocker.ZDup{A: 7}},
 }
@@ -284,6 +291,25 @@ func zchain(e error) (chain string, walk string) {
 	return strings.Join(parts, ">"), znode(last)
 }
 
+// zcauseBy exercises erro.CauseBy (traceable.go:26) on the value: k/n = for how many of the n Traceable nodes on the
+// erro.Cause walk CauseBy(e, node) holds; x = 1 if CauseBy also claims a Traceable that is NOT on the walk.
+func zcauseBy(e error) string {
+	k, n := 0, 0
+	for c, i := e, 0; c != nil && i < 16; c, i = erro.Cause(c), i+1 {
+		if t, ok := c.(erro.Traceable); ok {
+			n++
+			if erro.CauseBy(e, t) {
+				k++
+			}
+		}
+	}
+	x := 0
+	if other, ok := erro.NewTraceableErrors("unrelated").(erro.Traceable); ok && erro.CauseBy(e, other) {
+		x = 1
+	}
+	return fmt.Sprintf("%d/%d,%d", k, n, x)
+}
+
 func zstrClass(s string) string {
 	has := func(x string) bool { return strings.Contains(s, x) }
 	switch {
@@ -355,22 +381,23 @@ func zrun(f func()) (res string) {
 			if cls == "plain" {
 				cls = zstrClass(v.Error())
 			}
+			cby := zcauseBy(v)
 			if cls == "reflect" || cls == "runtime" { // reflect panics with strings and *ValueError alike
-				chain, walk = cls, cls
+				chain, walk, cby = cls, cls, "-"
 			}
-			res = fmt.Sprintf("rej:%s chain=%s walk=%s", cls, chain, walk)
+			res = fmt.Sprintf("rej:%s chain=%s walk=%s cby=%s", cls, chain, walk, cby)
 		case string:
 			if c := zstrClass(v); c == "reflect" {
-				res = "rej:reflect chain=reflect walk=reflect"
+				res = "rej:reflect chain=reflect walk=reflect cby=-"
 			} else {
-				res = fmt.Sprintf("rej:%s chain=str walk=str", c)
+				res = fmt.Sprintf("rej:%s chain=str walk=str cby=-", c)
 			}
 		default:
-			res = fmt.Sprintf("rej:other chain=%T walk=%T", r, r)
+			res = fmt.Sprintf("rej:other chain=%T walk=%T cby=-", r, r)
 		}
 	}()
 	f()
-	return "ok chain=- walk=-"
+	return "ok chain=- walk=- cby=-"
 }
 
 // ---------------------------------------------------------------- behaviour
@@ -395,7 +422,7 @@ func zeq(a, b interface{}) bool {
 	av, bv := reflect.ValueOf(a), reflect.ValueOf(b)
 	if av.IsValid() && bv.IsValid() && av.Type() == bv.Type() {
 		switch av.Kind() {
-		case reflect.Map, reflect.Chan, reflect.Ptr, reflect.Slice:
+		case reflect.Map, reflect.Chan, reflect.Ptr, reflect.Slice, reflect.Func:
 			if av.Kind() == reflect.Slice {
 				return reflect.DeepEqual(a, b)
 			}
@@ -490,6 +517,8 @@ func zorigin(kind string, ft reflect.Type) (interface{}, uintptr) {
 		return "x", 0
 	case "pint":
 		return new(int), 0
+	case "fnval": // a plain function value (not a pointer to a func variable): its own body is the placeholder
+		return zbigTramp2, reflect.ValueOf(zbigTramp2).Pointer()
 	case "small", "ok":
 		code := reflect.ValueOf(zsmallTramp).Pointer()
 		if kind == "ok" {
@@ -503,6 +532,9 @@ func zorigin(kind string, ft reflect.Type) (interface{}, uintptr) {
 	}
 	panic("probe: bad origin kind " + kind)
 }
+
+//go:noinline
+func zbigTramp2() int { return zbigTramp() + zbigTramp() + zbigTramp() + zbigTramp() + zbigTramp() + zbigTramp() }
 
 //go:noinline
 func zbigTramp() int {
@@ -663,12 +695,64 @@ func zafter(fn interface{}, fv reflect.Value, sig zsig, snap0 []byte, entry, tra
 	return "ok"
 }
 
+// zfmOp: Func(zrcv.<M>) — a METHOD VALUE as target (symbol name ends in "-fm"; mocker.go:462 applies it by name).
+// fm <method> <ins (no receiver)> <outs> <var> <action...>; callbacks are written with the receiver first.
+func zfmOp(t []string) string {
+	m, ok := reflect.TypeOf(zrcv).MethodByName(t[0])
+	if !ok {
+		return "zoo-mismatch"
+	}
+	mv := reflect.ValueOf(zrcv).MethodByName(t[0]) // the bound method value
+	sig := zparseSig(t[1], t[2], t[3])
+	if !zcheckSig(mv.Type(), sig) {
+		return "zoo-mismatch"
+	}
+	target := zmvals[t[0]]
+	if target == nil {
+		return "zoo-mismatch"
+	}
+	entry := m.Func.Pointer()
+	full := zsig{append([]string{"prc"}, sig.ins...), sig.outs, sig.variadic}
+	snap := zsnap()
+	b := Create()
+	var stub []string
+	act := t[4:]
+	res := zrun(func() { stub = zaction(b.Func(target), act) })
+	d := zdiff(snap, entry, 0)
+	beh := "skip"
+	fits := act[0] != "applyval" && act[0] != "apply" || act[0] == "apply" && (act[1] == strings.Join(full.ins, ",") && act[2] == strings.Join(full.outs, ",") || (len(full.outs) == 0 && act[2] == "-" && act[1] == strings.Join(full.ins, ",")))
+	if strings.HasPrefix(res, "rej:") || fits {
+		zloose = true
+		beh = zbehave(m.Func, full, stub)
+		zloose = false
+	}
+	reg := patch.ZZC13Reg(entry)
+	b.Reset()
+	patch.ZZC13UnpatchAll()
+	after := "ok"
+	if got := zbehave(m.Func, full, nil); got != "orig" {
+		after = "fail:not-orig-after-reset:" + got
+	} else if d0 := zdiff(snap, entry, 0); d0 != "none" {
+		after = "fail:text-after-reset:" + d0
+	}
+	return fmt.Sprintf("%s diff=%s beh=%s reg=%s after=%s", res, d, beh, reg, after)
+}
+
 func znonfuncOp(t []string) string {
 	// nonfunc <valtok> <action...>   -- Builder.Func(<non-function>)
 	snap := zsnap()
 	n0 := patch.ZZC13RegLen()
 	b := Create()
-	res := zrun(func() { zaction(b.Func(zvalue(t[0])), t[1:]) })
+	var target interface{}
+	if t[0] == "pfn" { // pointer to a variable that holds the function zt3
+		fv := zzoo["t3"]
+		p := reflect.New(reflect.TypeOf(fv))
+		p.Elem().Set(reflect.ValueOf(fv))
+		target = p.Interface()
+	} else {
+		target = zvalue(t[0])
+	}
+	res := zrun(func() { zaction(b.Func(target), t[1:]) })
 	d := zdiff(snap, 0, 0)
 	n1 := patch.ZZC13RegLen()
 	b.Reset()
@@ -747,6 +831,15 @@ func zexportOp(t []string) string {
 	name := map[string]string{"known": "ztouch", "unknown": "zNoSuchFunction", "empty": ""}[t[1]]
 	res := zrun(func() {
 		cb := zcallback(ztoks(t[3]), ztoks(t[4]), t[5] == "1")
+		if t[2] == "asapply" || t[2] == "asreturn" { // export func known asapply <asIns> <asOuts> 0 <cbIns> <cbOuts> | asreturn ... <vals>
+			m := b.ExportFunc(name).As(cb)
+			if t[2] == "asapply" {
+				m.Apply(zcallback(ztoks(t[6]), ztoks(t[7]), false))
+			} else {
+				m.Return(zvalues(t[6])...)
+			}
+			return
+		}
 		if t[0] == "func" {
 			m := b.ExportFunc(name)
 			if t[2] == "as" {
@@ -879,6 +972,7 @@ type zseq struct {
 	m      ExportedMocker
 	byName func(name string) // Struct(x).Method(name) / Interface(&i).Method(name), result discarded
 	setAs  func(ci, co string)
+	useHolder func() // from now on configure through Interface(&<struct that holds the variable>)
 	w      *When // the handle returned by the last When/Return/Returns/... call
 	via    bool  // route the next When/Return/Returns through the mocker (after a repeated lookup)
 }
@@ -894,6 +988,10 @@ func (q *zseq) step(st []string) {
 			n = ""
 		}
 		q.byName(n)
+		return
+	case "holder":
+		q.useHolder()
+		q.w = nil
 		return
 	case "as":
 		q.setAs(st[1], st[2])
@@ -920,6 +1018,9 @@ func (q *zseq) step(st []string) {
 	case "returns":
 		var gs []interface{}
 		for _, g := range strings.Split(st[1], "|") {
+			if st[1] == "()" { // Returns() without any value
+				break
+			}
 			gs = append(gs, zgroup(g))
 		}
 		if q.w != nil && !q.via {
@@ -958,6 +1059,16 @@ func zstubFor(t reflect.Type) reflect.Value {
 	return reflect.Zero(t)
 }
 
+// zholderE / zholderN: structs whose FIRST field is the interface variable (embedded / named).
+type zholderE struct {
+	ZIfc
+	name string
+}
+type zholderN struct {
+	F    ZIfc
+	name string
+}
+
 // zseqOp runs the steps one configuration call at a time; the observation is about the LAST executed call (the first
 // rejected one, or the final one) relative to the state right before it.
 func zseqOp(form string, t []string) string {
@@ -971,9 +1082,12 @@ func zseqOp(form string, t []string) string {
 		q      = &zseq{}
 		behave func() string
 		retry  func(c *Builder, cb interface{})
-		iv     ZIfc
+		hold   zholderE
+		holdN  zholderN
 		meths  func() string
 	)
+	ivp := &hold.ZIfc // the interface variable is the first field of a struct (embedded, or named with `<method>@n`): same address as the struct
+	var holder interface{} = &hold
 	cont := strings.HasPrefix(form, "rt") // retry forms run every step, also after a rejection
 	if cont {
 		form = "seq" + form[2:]
@@ -1008,6 +1122,9 @@ func zseqOp(form string, t []string) string {
 		q.byName = func(n string) { b.Struct(rcv).Method(n) }
 		retry = func(c *Builder, cb interface{}) { c.Struct(rcv).Method(t[0]).Apply(cb) }
 	case "seqi": // seqi <name> <all method names> <mins> <mouts> <cbIns> <cbOuts> <steps>
+		if strings.HasSuffix(t[0], "@n") {
+			t[0], ivp, holder = strings.TrimSuffix(t[0], "@n"), &holdN.F, &holdN
+		}
 		it := reflect.TypeOf((*ZIfc)(nil)).Elem()
 		im, ok := it.MethodByName(t[0])
 		namesTok := t[1]
@@ -1022,8 +1139,16 @@ func zseqOp(form string, t []string) string {
 		}
 		steps = zsplit(t[5:])
 		asFn := zcallback(ztoks(t[3]), ztoks(t[4]), false)
-		q.lookup = func() ExportedMocker { return b.Interface(&iv).Method(t[0]).As(asFn) }
-		q.byName = func(n string) { b.Interface(&iv).Method(n) }
+		viaHolder := false
+		target := func() interface{} {
+			if viaHolder {
+				return holder
+			}
+			return ivp
+		}
+		q.useHolder = func() { viaHolder = true; q.m = q.lookup() }
+		q.lookup = func() ExportedMocker { return b.Interface(target()).Method(t[0]).As(asFn) }
+		q.byName = func(n string) { b.Interface(target()).Method(n) }
 		q.setAs = func(ci, co string) { asFn = zcallback(ztoks(ci), ztoks(co), false) }
 		callM := func(name string) (res string) {
 			defer func() {
@@ -1039,7 +1164,7 @@ func zseqOp(form string, t []string) string {
 					}
 				}
 			}()
-			mv := reflect.ValueOf(&iv).Elem().MethodByName(name)
+			mv := reflect.ValueOf(ivp).Elem().MethodByName(name)
 			args := make([]reflect.Value, mv.Type().NumIn())
 			for i := range args {
 				args[i] = zstubFor(mv.Type().In(i))
@@ -1052,7 +1177,7 @@ func zseqOp(form string, t []string) string {
 			return "stub"
 		}
 		meths = func() string {
-			if iv == nil {
+			if *ivp == nil {
 				return "nil"
 			}
 			var p []string
@@ -1062,7 +1187,7 @@ func zseqOp(form string, t []string) string {
 			return strings.Join(p, ",")
 		}
 		behave = func() (res string) {
-			if iv == nil {
+			if *ivp == nil {
 				return "nil"
 			}
 			defer func() {
@@ -1075,7 +1200,7 @@ func zseqOp(form string, t []string) string {
 				}
 			}()
 			zcbHits = 0
-			reflect.ValueOf(&iv).Elem().MethodByName(t[0]).Call(msig.callArgs())
+			reflect.ValueOf(ivp).Elem().MethodByName(t[0]).Call(msig.callArgs())
 			if zcbHits > 0 {
 				return "cb"
 			}
@@ -1112,7 +1237,7 @@ func zseqOp(form string, t []string) string {
 	beh := behave()
 	if form == "seqi" {
 		v := "nil"
-		if iv != nil {
+		if *ivp != nil {
 			v = "set"
 		}
 		ms := meths()
@@ -1148,9 +1273,18 @@ func zseqOp(form string, t []string) string {
 
 // TestVerifC13 interprets the operation stream.
 func TestVerifC13(t *testing.T) {
-	zinitText()
 	out := vh.OpenOut()
 	defer out.Close()
+	func() {
+		defer func() {
+			if r := recover(); r != nil {
+				out.Put(0, "probe-init-failed")
+				out.Close()
+				os.Exit(3)
+			}
+		}()
+		zinitText()
+	}()
 	start, _ := strconv.Atoi(os.Getenv("VERIF_START"))
 	for _, op := range vh.ReadOps() {
 		if op.Idx < start || len(op.Toks) < 2 || op.Toks[0] != "c13" {
@@ -1163,7 +1297,16 @@ func TestVerifC13(t *testing.T) {
 					obs = "probe-panic:" + vh.Class(fmt.Sprint(r))
 				}
 			}()
+			toks := op.Toks
+			if toks[1] == "dbg" { // the same call with goom's debug mode on (debug.go wraps every callback)
+				OpenDebug()
+				defer CloseDebug()
+				toks = append([]string{toks[0]}, toks[2:]...)
+			}
+			op.Toks = toks
 			switch op.Toks[1] {
+			case "fm":
+				obs = zfmOp(op.Toks[2:])
 			case "func":
 				obs = zfuncOp(op.Toks[2:])
 			case "nonfunc":
